@@ -40,6 +40,7 @@ def finalize(agg, tier):
     out = []
     for n in ("ctr_objects", "ctr_blocks_recovered", "ctr_overflow_raised", "ctr_limit_reached_exactly", "ctr_passed_through_zero",
               "chacha_blocks_checked", "chacha_limit_exceptions", "chacha_seek_beyond_refused", "ccm_too_long_refused", "ccm_at_limit_ok",
+              "ccm_too_long_refused_again",
               "hpke_nonces_captured", "hpke_exhaustion_refused", "hpke_history_calls", "hpke_refused_calls_in_history",
               "hpke_receiver_steps"):
         if not c.get(n):
@@ -501,14 +502,30 @@ def w_ccm(spec, ctx):
                 ctx.ev()
                 ctx.count("ccm_too_long_refused")
         elif feasible:
-            c = AES.new(key, AES.MODE_CCM, nonce=nonce)
-            try:
-                c.encrypt(bytes(maxlen + over))
-                ctx.check(False, "ccm:too-long-accepted", "message longer than 2^(8(15-|nonce|))-1 accepted (undeclared length)",
-                          {"nonce_len": nl, "len": maxlen + over})
-            except ValueError:
-                ctx.ev()
-                ctx.count("ccm_too_long_refused")
+            for direction in ("encrypt", "decrypt"):
+                c = AES.new(key, AES.MODE_CCM, nonce=nonce)
+                if rng.random() < 0.5:
+                    c.update(b"header")
+                try:
+                    getattr(c, direction)(bytes(maxlen + over))
+                    ctx.check(False, "ccm:too-long-accepted", "message longer than 2^(8(15-|nonce|))-1 accepted (undeclared length)",
+                              {"nonce_len": nl, "len": maxlen + over, "direction": direction})
+                except ValueError:
+                    ctx.ev()
+                    ctx.count("ccm_too_long_refused")
+                # the limit is a property of the object, not of its first call: the same object is asked again (same length,
+                # one byte less if that is still too long) - data must never come back for a message beyond the limit
+                for again in (maxlen + over, maxlen + 1):
+                    try:
+                        r_ = getattr(c, direction)(bytes(again))
+                        ctx.check(False, "ccm:too-long-accepted-after-refusal",
+                                  "after an over-long message had been refused, the same object returned data for another message "
+                                  "longer than 2^(8(15-|nonce|))-1", {"nonce_len": nl, "first": maxlen + over, "then": again,
+                                                                       "direction": direction, "returned_bytes": len(r_ or b"")})
+                        break
+                    except (ValueError, TypeError):
+                        ctx.ev()
+                        ctx.count("ccm_too_long_refused_again")
         # (b) exactly at the limit must work and round-trip
         if feasible:
             msg = bytes(rng.getrandbits(8) for _ in range(64)) * (maxlen // 64) + bytes(maxlen % 64)
